@@ -7,6 +7,8 @@ from wv import h_channel, tv
 from wv.par import pmap
 
 CLAUSES = {
+    "C06": ["P06_refused_request_never_reaches_application", "P11_no_response_after_a_closing_response", "P11_nothing_executed_after_a_closing_response",
+            "P11_closing_response_is_followed_by_close", "P04_at_most_one_response_per_request"],
     "C03": ["P04_wire_is_a_sequence_of_well_formed_responses", "P04_at_most_one_response_per_request", "P04_only_the_last_response_may_be_cut",
             "P11_no_response_after_a_closing_response", "P11_closing_response_is_followed_by_close", "P11_nothing_executed_after_a_closing_response"],
     "C04": ["P04_wire_is_a_sequence_of_well_formed_responses", "P04_at_most_one_response_per_request",
